@@ -461,8 +461,8 @@ fn check_chain(cx: &Ctx, ch: &Chain, store: &StoreD, origin: &str, model: &mut M
     }
 
     // (b) compiled afresh vs served from the session's cache (same source id twice), and vs (i)
-    let id = 1 + p.below(1000) as usize;
-    let id2 = id + 1 + p.below(5) as usize;
+    let id = 1 + p.below(3) as usize;
+    let id2 = id + 1 + p.below(2) as usize;
     let other = "1 + 2 * 3 - i2".to_string();
     let cached = Case {
         origin: format!("{}:cache", origin),
